@@ -93,7 +93,9 @@ def c_bag_sample(c, bt, k):
     from vsc.model.coverpoint_bin_single_bag_model import CoverpointBinSingleBagModel
     from vsc.model.rangelist_model import RangelistModel
     from vsc.model.coverpoint_bin_type import CoverpointBinType
-    rs = fresh_ranges(c, k, wellformed=False)
+    from contracts.rangelist import ascending_lo
+    rs = fresh_ranges(c, k)
+    c.assume(ascending_lo(rs))           # established by bin.build_cov_model / mk_collection (their postconditions)
     v, base = c.fresh_int("v"), c.fresh_int("base", 0)
     b = CoverpointBinSingleBagModel("b", RangelistModel([[lo, hi] for lo, hi in rs]))
     b.set_bin_type(CoverpointBinType[bt])
